@@ -11,6 +11,8 @@ import (
 	"strconv"
 	"strings"
 	"time"
+
+	"golang.org/x/tools/go/ssa"
 )
 
 type propRule struct {
@@ -33,6 +35,8 @@ func main() {
 	verif := flag.String("verif", "", "verif directory (default: parent of the binary's directory)")
 	explain := flag.String("explain", "", "re-evaluate the obligation stored in a violation report")
 	list := flag.Bool("list", false, "print every obligation")
+	dump := flag.String("dump", "", "debug: print the SSA of pkg:func or pkg:Type.method")
+	overlayFile := flag.String("overlay", "", "JSON file {absolute path: replacement content} analysed instead of the files on disk (checker self-validation only)")
 	flag.Parse()
 
 	if *verif == "" {
@@ -57,6 +61,49 @@ func main() {
 	if *explain != "" {
 		os.Exit(doExplain(*explain, *repo, *verif, *tier, seed))
 	}
+	var overlay map[string][]byte
+	if *overlayFile != "" {
+		data, err := os.ReadFile(*overlayFile)
+		if err != nil {
+			fmt.Println(err)
+			os.Exit(2)
+		}
+		var m map[string]string
+		if err := json.Unmarshal(data, &m); err != nil {
+			fmt.Println(err)
+			os.Exit(2)
+		}
+		overlay = map[string][]byte{}
+		for k, v := range m {
+			overlay[k] = []byte(v)
+		}
+	}
+	if *dump != "" {
+		w, err := loadWorld(*repo, overlay)
+		if err != nil {
+			fmt.Println(err)
+			os.Exit(1)
+		}
+		parts := strings.SplitN(*dump, ":", 2)
+		var fn *ssa.Function
+		if tm := strings.SplitN(parts[1], ".", 2); len(tm) == 2 {
+			fn = w.Method(parts[0], tm[0], tm[1])
+		} else {
+			fn = w.Func(parts[0], parts[1])
+		}
+		if fn == nil {
+			fmt.Println("not found")
+			os.Exit(1)
+		}
+		fn.WriteTo(os.Stdout)
+		for _, a := range fn.AnonFuncs {
+			a.WriteTo(os.Stdout)
+		}
+		for _, c := range Calls(fn) {
+			fmt.Printf("CALL %s @ %s\n", c.Name, w.InstrPos(c.Instr))
+		}
+		os.Exit(0)
+	}
 	if *prop == "" {
 		fmt.Println("usage: gbcheck -property <id|all> [-tier quick|thorough]")
 		os.Exit(2)
@@ -77,7 +124,7 @@ func main() {
 		}
 	}
 	t0 := time.Now()
-	w, err := loadWorld(*repo, nil)
+	w, err := loadWorld(*repo, overlay)
 	if err != nil {
 		// a tree that cannot be analysed cannot be decided: alarm
 		for _, id := range ids {
